@@ -235,6 +235,12 @@ func (nw *network) appCommand(i int, verb string, prefix string) {
 	}
 }
 
+func (nw *network) stormy() bool {
+	nw.mu.Lock()
+	defer nw.mu.Unlock()
+	return nw.storm != ""
+}
+
 func (nw *network) setHarnessErr(f string, a ...any) {
 	nw.mu.Lock()
 	if nw.harnessErr == "" {
@@ -271,6 +277,7 @@ type simResult struct {
 	adverts    int
 	resnap     int
 	bubbleErr  string // the bubble could not end: goroutines of the routers blocked for ever
+	stormErr   string // advertisements never stopped changing; the run was cut short
 	classes    map[string]bool
 	ops        int           // prefix operations issued so far
 	drained    time.Duration // extra settling time spent waiting for operation logs to be fetched
@@ -361,6 +368,9 @@ func runSim(t *testing.T, c Case, sched Sched) (res simResult) {
 				nw.runFor(500 * time.Millisecond)
 				res.drained += 500 * time.Millisecond
 			}
+			if nw.stormy() {
+				return
+			}
 			res.points = append(res.points, nw.observe(step, lastEvent))
 		}
 		union := map[[2]int]bool{}
@@ -380,6 +390,9 @@ func runSim(t *testing.T, c Case, sched Sched) (res simResult) {
 			for i := range all {
 				all[i] = true
 			}
+			if nw.stormy() {
+				return
+			}
 			sp := &res.points[len(res.points)-1]
 			sp.forest = !hasCycle(adjOf(c.N, es), all)
 			sp.topoEvs = topoEvs
@@ -390,6 +403,9 @@ func runSim(t *testing.T, c Case, sched Sched) (res simResult) {
 		settle(0, c.Chaos)
 		finish(0)
 		for si, st := range c.Steps {
+			if nw.stormy() {
+				break
+			}
 			topoEvs := 0
 			for _, ev := range st.Evs {
 				nw.apply(c, ev, &res)
@@ -417,6 +433,7 @@ func runSim(t *testing.T, c Case, sched Sched) (res simResult) {
 		nw.mu.Lock()
 		res.advertErr = nw.advertViolation
 		res.harnessErr = nw.harnessErr
+		res.stormErr = nw.storm
 		res.counts = nw.counts
 		res.adverts = nw.adverts
 		res.resnap = nw.resnap
@@ -547,6 +564,7 @@ func (nw *network) observe(step int, lastEvent time.Duration) settlePoint {
 		sp.advChg = append(sp.advChg, nw.advChanges[i])
 	}
 	nw.advChanges = map[int]int{}
+	nw.advServed = map[int]int{}
 	nw.mu.Unlock()
 	for _, n := range nw.nodes {
 		if !n.up {
